@@ -38,7 +38,11 @@ def steadyFamilies : List String := [
   "graph.wide_mixer_hundreds_of_inputs_again", "graph.dense_dag_96_nodes_again",
   "graph.nested_graph_node_with_wired_inputs_again",
   "graph.process_again_after_a_call_unwound_by_a_failing_user_node",
-  "graph.process_again_after_the_missing_node_panic"]
+  "graph.process_again_after_the_missing_node_panic",
+  "traits.ring_buffers_debug_clone_eq_while_rotating",
+  "traits.rms_and_envelope_detectors_debug_clone_while_running",
+  "traits.custom_width_samples_debug_cmp",
+  "traits.signal_adaptors_clone_mid_stream"]
 
 /-- modelled steady-state allocation effect of a catalogue family; `none` = not in the catalogue -/
 def effectOf (family : String) : Option Effect :=
